@@ -14,7 +14,7 @@ Not decided: numerical exactness of results.
 """
 from rules import driver, core, r_err, r_mpt, r_range, ts_bn, r_carry, r_dim, r_loopvar
 from rules.core import key, const_val, walk
-from props import common, fixtures, memsafe
+from props import common, fixtures, memsafe, c01_audit
 
 BN_H = "include/math/big_num.h"
 TRUSTED = ["clang 14 front end + CFG builder", "tool/lcbfacts.cc", "rules/core.py", "python3"]
@@ -536,6 +536,26 @@ def search_budget_rule(rep, u, fname="bn_mod_sqrt"):
                     r = core.base_ref(a)
                     if r is not None and r["n"] in derived:
                         src = derived[r["n"]]
+        # follow `ctr = f(ctr)` back to the definition before it
+        k_ = len(defs)
+        while k_ > 1 and core.refs(defs[k_ - 1]) and {r_["n"] for r_ in core.refs(defs[k_ - 1])} == {key(ctr)}:
+            k_ -= 1
+        defs = defs[:k_]
+        # the candidate handed to bn_mod_legendre: seeded with a constant and stepped by one, not derived from the operand
+        cand = core.base_ref(legs[0]["args"][0])
+        if cand is not None:
+            seeds = [c2 for _p, _r, c2, _ps in fn.calls({"bn_assign", "bn_assign_init", "bn_assign_digit"}) if core.base_ref(c2["args"][0]) is not None and
+                     core.base_ref(c2["args"][0])["n"] == cand["n"] and fn.dominates(_p[0], h) and _p[0] not in body]
+            from_operand = [c2 for c2 in seeds if c2["fn"] != "bn_assign_digit" and core.base_ref(c2["args"][1]) is not None and
+                            derived.get(core.base_ref(c2["args"][1])["n"]) == "operand"]
+            d2 = "%s: the candidates of the non-residue search do not depend on the operand" % fname
+            if from_operand:
+                rep.violated("R-SPEC", fn, "search-sequence", d2, "candidate '%s' is seeded with the operand (line %s): for some residues of a small modulus every "
+                             "candidate within the budget is a residue and the routine answers 'no square root' (32 mod 97, 4 mod 137)" % (cand["n"], from_operand[0].get("ln")))
+            elif seeds:
+                rep.proved("R-SPEC", fn, "search-sequence", d2, "candidate '%s' seeded by %s" % (cand["n"], seeds[-1]["fn"]))
+            else:
+                rep.undecided("R-SPEC", fn, "search-sequence", d2, "seed of candidate '%s' not found" % cand["n"])
         desc = "%s: the trial budget of the non-residue search is derived from the modulus (or constant)" % fname
         if src in ("modulus", "constant"):
             rep.proved("R-SPEC", fn, "search-budget", desc, "counter '%s' from the %s" % (key(ctr), src))
@@ -690,6 +710,7 @@ def run(rep, tier):
     rep.use_units(us)
     first = True
     n_err = n_ts = n_div = n_sh = n_carry = n_dim = n_fresh = n_norm = n_cap = n_ld = 0
+    n_aud = [0, 0, 0, 0, 0]
     for (l, d, w) in cs:
         u = us[l]
         S, _ = r_err.status_functions(u)
@@ -709,6 +730,10 @@ def run(rep, tier):
             nn_ = norm_rule(rep, fn)
             nca_ = cap_arg_rule(rep, u, fn)
             nld_ = low_digit_read_rule(rep, fn)
+            na_ = [c01_audit.truncating_update_rule(rep, fn), c01_audit.pending_accumulator_rule(rep, fn),
+                   c01_audit.carry_out_rule(rep, fn), c01_audit.shift_range_rule(rep, fn), c01_audit.remainder_hi_rule(rep, fn)]
+            if first:
+                n_aud = [a_ + b_ for a_, b_ in zip(n_aud, na_)]
             if first:
                 n_ld += nld_
             if first:
@@ -743,6 +768,15 @@ def run(rep, tier):
     rep.floor("destination (num, count) arguments", n_cap, 12)
     rep.floor("constant-index digit reads", n_ld, 3)
     rep.floor("pure-result three-operand routines", alias_rule(rep, us[cs[0][0]]), 2)
+    u0 = us[cs[0][0]]
+    rep.floor("bn_update_digits__int calls", n_aud[0], 12)
+    rep.floor("flushed sub-unit counters", n_aud[1], 2)
+    rep.floor("additions into the caller's capacity", n_aud[2], 5)
+    rep.floor("forwarded shift counts", n_aud[3], 2)
+    rep.floor("square-root start exponents", c01_audit.sqrt_parity_rule(rep, u0), 3)
+    rep.floor("binary inverse domain obligations", c01_audit.mod_inv_domain_rule(rep, u0), 2)
+    rep.floor("modular power success returns", c01_audit.reduced_exit_rule(rep, u0), 4)
+    rep.floor("high-remainder stores on success paths (first configuration is a portable-divide one)", n_aud[4], 3)
     return driver.finish(
         rep, "other",
         "Static analysis of math/big_num.h in %d configurations (digit widths 8..128, compiler double-width vs portable "
@@ -807,6 +841,20 @@ def alias_rule(rep, u):
                     bad = bad or "%s at line %s writes the result object, %s at line %s then reads '%s': called in place (%s == %s) it sees the overwritten value" % (
                         wc["fn"], wc.get("ln"), rc["fn"], rc.get("ln"), a["n"], dst["n"], a["n"])
         (rep.violated if bad else rep.proved)("R-ALIAS", fn, "result-may-be-first-source", desc, bad or "%d writes, %d reads of %s" % (len(writes), len(reads_a), a["n"]))
+        # the same for the second source (a symmetric operation called as f(&b, &a, &b))
+        if fn.name.startswith("bn_mod_"):
+            continue                      # the third object is the modulus: the result cannot sensibly be the modulus
+        b2 = bp[2]
+        reads_b = [(pos, c) for pos, root, c, ps in fn.calls() if c.get("fn") and any(core.is_ref(core.strip_casts(arg), name=b2["n"]) for arg in c.get("args", []))]
+        desc = "%s(%s, %s, %s): once the result has been written, the second source '%s' (which may be the same object) is not read again" % (
+            fn.name, dst["n"], a["n"], b2["n"], b2["n"])
+        bad = None
+        for wp, wc in writes:
+            for rp, rc in reads_b:
+                if rp != wp and fn.pos_dominates(wp, rp):
+                    bad = bad or "%s at line %s writes the result object, %s at line %s then reads '%s': called as f(&b, &a, &b) it sees the overwritten value (gcd(54, 24) = 54)" % (
+                        wc["fn"], wc.get("ln"), rc["fn"], rc.get("ln"), b2["n"])
+        (rep.violated if bad else rep.proved)("R-ALIAS", fn, "result-may-be-second-source", desc, bad or "%d writes, %d reads of %s" % (len(writes), len(reads_b), b2["n"]))
     return n
 
 
